@@ -42,7 +42,7 @@ MANIFEST = {
     "level_note": "Trusted: Coq kernel, extraction, OCaml/Go glue. Modelled, not verified: crypto/aes, cipher CTR/CBC, box "
                   "(de)serialisation other than senc/saiz/saio, the trun sample table and sinf/frma/schm/schi/tenc (other boxes are opaque kind/size/identity triples or opaque bytes), "
                   "16-byte headers on box types the library knows (it re-encodes them with an 8-byte header: only unknown boxes keep theirs, and those are modelled), "
-                  "multi-track model domain: distinct track ids per moof and a trex for every protected track (Fragment.GetFullSamples(nil) reads the FIRST traf), "
+                  "multi-track model: x_data of a traf is its sample data as the decoder resolves it (sizes through trun / tfhd / trex: C06TrexModel), "
                   "the laxness of the io.Reader container decoder (a child larger than its parent is read to EOF: the model rejects it). "
                   "A clear input that already carries a seig sample group is protection-signalled input outside the property's 'clear track' (a seig that "
                   "contradicts the tenc InitProtect writes makes ParseReadSenc misread the senc: witness in reports/C06.md); the search feeds seig groups that agree "
@@ -72,7 +72,7 @@ def run(ctx):
         "coq/c07/C07Aes.v AES-128 (encrypt + decrypt) validated against FIPS-197 vectors, used only in the correspondence",
     ]
     ctx.assumptions += ["one traf / one trun per fragment on the encrypt side (EncryptFragment rejects anything else); multi-track / multi-trun theorems: any packager that runs "
-                        "EncryptFragment's per-sample loop per traf (enc_children), distinct track ids in a moof, a trex per protected track, data offsets within int32, positions within uint64",
+                        "EncryptFragment's per-sample loop per traf (enc_children), several trafs per track allowed (DecryptFragment after fix fc9ee41), data offsets within int32, positions within uint64",
                         "cbcs inverse: E, D map to 16-byte blocks and D k (E k b) = b for 16-byte b; sub-sample map fits the sample (< 2^32 bytes)",
                         "clear input fragments carry no pssh/saiz/saio/senc boxes of their own",
                         "fragment theorems: default-base-is-moof addressing (an absolute tfhd base_data_offset is known finding C06-F2)",
@@ -119,7 +119,7 @@ def run(ctx):
                         "U sample flags/duration/size/cto/decode time from GetFullSamples with the file's trex and with nil (values in trun, tfhd, only in trex, first-sample-flags), the trun bytes Encode writes AFTER the defaults were filled into trun.Samples, and that box decoded again; "
                         "V trun bodies of all 64 flag combinations, damaged (wrong/huge counts, truncated, extended); "
                         "W the sample entry bytes (found by walking) of the clear init (AVC/HEVC/AAC + btrt/pasp/unknown/sinf-like/free children, own sinf), after InitProtect+Encode, after DecodeFile+DecryptInit+Encode, and the sinf DecryptInit returns; "
-                        "H DecryptFragment on multi-track / multi-trun fragments assembled third-party style (1-3 tracks AVC/HEVC/audio, cenc/cbcs/clear per track, each protected by InitProtect+EncryptFragment then split in 1-3 truns, trafs in any order, saiz/saio/senc and 0-2 pssh at any position, unknown boxes with 16-byte headers in traf and moof, clear tracks with saiz/saio of their own, truns interleaved in the mdat, 8/16-byte mdat header, bytes in front of the moof; malformed: senc/saiz/saio/pssh renamed, a traf of a track the init does not know): children, every trun data offset, sample bytes per traf, mdat position; "
+                        "H DecryptFragment on multi-track / multi-trun fragments assembled third-party style (1-3 tracks AVC/HEVC/audio, cenc/cbcs/clear per track, each protected by InitProtect+EncryptFragment then split in 1-3 truns, trafs in any order, saiz/saio/senc and 0-2 pssh at any position, unknown boxes with 16-byte headers in traf and moof, clear tracks with saiz/saio of their own, truns interleaved in the mdat, 8/16-byte mdat header, bytes in front of the moof; malformed: senc/saiz/saio/pssh renamed, a traf of a track the init does not know; every 4th input: a further traf of the first track): children, every trun data offset, sample bytes per traf, mdat position; "
                         "Y sample entries written from the syntax (any bytes in reserved/pre_defined positions, any depth, compressor-name length 0..31 and above, fractional sample rate; children before and after the sinf incl. unknown children with 16-byte headers; several sinf boxes, sinf without frma / without tenc, an entry not called encv/enca; cut short / damaged): DecodeBox + RemoveEncryption + Encode bytes and the returned sinf; "
                         "X sinf boxes written from the syntax: tenc versions 0/1/2, crypt:skip, isProtected 0/1/2, IV sizes 0/8/16, constant IVs, schm with URI, missing/duplicate/reordered/unknown children, short tenc/schm/frma, child size below 8",
     }
